@@ -7,6 +7,7 @@ import (
 
 	"github.com/LiskHQ/lisk-engine/pkg/blockchain"
 	"github.com/LiskHQ/lisk-engine/pkg/codec"
+	"github.com/LiskHQ/lisk-engine/pkg/crypto"
 
 	"verifharness/internal/cx"
 	"verifharness/internal/cxs"
@@ -152,17 +153,19 @@ func replayLisk32(o *hx.Out, line []byte) {
 
 // ---- IDs: NewTransaction / NewBlockHeader: ID, re-encoding, ID of the re-decoded re-encoding
 type idRec struct {
-	K     string `json:"k"`
-	Kind  string `json:"kind"`
-	D     string `json:"d"`
-	Gen   string `json:"gen"`
-	St    int    `json:"st"`
-	ID    string `json:"id"`
-	Re    string `json:"re"`
-	St2   int    `json:"st2"`
-	ID2   string `json:"id2"`
-	Re2   string `json:"re2"`
-	Panic string `json:"panic,omitempty"`
+	Extra [][2]string     `json:"extra,omitempty"` // further (ID, encoding) pairs that must satisfy ID = hash(encoding)
+	Flags map[string]bool `json:"flags,omitempty"` // further facts that must hold
+	K     string          `json:"k"`
+	Kind  string          `json:"kind"`
+	D     string          `json:"d"`
+	Gen   string          `json:"gen"`
+	St    int             `json:"st"`
+	ID    string          `json:"id"`
+	Re    string          `json:"re"`
+	St2   int             `json:"st2"`
+	ID2   string          `json:"id2"`
+	Re2   string          `json:"re2"`
+	Panic string          `json:"panic,omitempty"`
 }
 
 func runID(kind string, d []byte, gen string) idRec {
@@ -181,6 +184,82 @@ func runID(kind string, d []byte, gen string) idRec {
 				return 1, "", ""
 			}
 			return 0, hex.EncodeToString(h.ID), hex.EncodeToString(h.Encode())
+		case "tx-reinit": // Init, edit, Init again: the ID and the size must follow the edit
+			t, err := blockchain.NewTransaction(in)
+			if err != nil {
+				return 1, "", ""
+			}
+			t.Nonce ^= 1
+			t.Params = append(append([]byte{}, t.Params...), 0x07)
+			t.Init()
+			enc := t.Encode()
+			rec.Flags = map[string]bool{"size": t.Size() == len(enc)}
+			return 0, hex.EncodeToString(t.ID), hex.EncodeToString(enc)
+		case "tx-json", "header-json", "block-json": // JSON round trip with forged "id" members, then Init (the RPC path)
+			forged := strings.Repeat("ab", 32)
+			var src interface{}
+			var dst interface{ Init() }
+			switch kind {
+			case "tx-json":
+				t, err := blockchain.NewTransaction(in)
+				if err != nil {
+					return 1, "", ""
+				}
+				src, dst = t, &blockchain.Transaction{}
+			case "header-json":
+				h, err := blockchain.NewBlockHeader(in)
+				if err != nil {
+					return 1, "", ""
+				}
+				src, dst = h, &blockchain.BlockHeader{}
+			default:
+				b, err := blockchain.NewBlock(in)
+				if err != nil {
+					return 1, "", ""
+				}
+				src, dst = b, &blockchain.Block{}
+			}
+			js, err := json.Marshal(src)
+			if err != nil {
+				return 1, "", ""
+			}
+			var generic interface{}
+			if err := json.Unmarshal(js, &generic); err != nil {
+				return 1, "", ""
+			}
+			forgeIDs(generic, forged)
+			js, _ = json.Marshal(generic)
+			if err := json.Unmarshal(js, dst); err != nil {
+				return 1, "", ""
+			}
+			dst.Init()
+			switch v := dst.(type) {
+			case *blockchain.Transaction:
+				enc := v.Encode()
+				rec.Flags = map[string]bool{"size": v.Size() == len(enc)}
+				return 0, hex.EncodeToString(v.ID), hex.EncodeToString(enc)
+			case *blockchain.BlockHeader:
+				return 0, hex.EncodeToString(v.ID), hex.EncodeToString(v.Encode())
+			case *blockchain.Block:
+				for _, t := range v.Transactions {
+					rec.Extra = append(rec.Extra, [2]string{hex.EncodeToString(t.ID), hex.EncodeToString(t.Encode())})
+				}
+				return 0, hex.EncodeToString(v.Header.ID), hex.EncodeToString(v.Header.Encode())
+			}
+			return 1, "", ""
+		case "header-sign-nil": // locally built header with a nil aggregate commit, signed: ID and signature survive a reload
+			h0 := &blockchain.BlockHeader{}
+			if err := h0.Decode(in); err != nil {
+				return 1, "", ""
+			}
+			h0.AggregateCommit = nil
+			pub, priv, _ := crypto.GetKeys("verif c08 signer")
+			h0.Sign([]byte{0, 0, 0, 1}, priv)
+			enc := h0.Encode()
+			h1, err := blockchain.NewBlockHeader(enc)
+			rec.Flags = map[string]bool{"signature-valid-before": h0.VerifySignature([]byte{0, 0, 0, 1}, pub),
+				"signature-valid-after-reload": err == nil && h1.VerifySignature([]byte{0, 0, 0, 1}, pub)}
+			return 0, hex.EncodeToString(h0.ID), hex.EncodeToString(enc)
 		case "headerv": // locally built header: d = encoding of the field values, aggregate commit deliberately nil
 			h0 := &blockchain.BlockHeader{}
 			if err := h0.Decode(in); err != nil {
@@ -205,8 +284,11 @@ func runID(kind string, d []byte, gen string) idRec {
 		rec.St, rec.ID, rec.Re = one(append([]byte{}, d...))
 		if rec.St == 0 {
 			re, _ := hex.DecodeString(rec.Re)
-			if kind == "block" || kind == "headerv" { // second round on the header bytes
+			switch kind { // second round: plain decode of the encoding
+			case "block", "headerv", "header-json", "block-json", "header-sign-nil":
 				kind = "header"
+			case "tx-reinit", "tx-json":
+				kind = "tx"
 			}
 			rec.St2, rec.ID2, rec.Re2 = one(re)
 		}
@@ -234,11 +316,16 @@ func genIDs(o *hx.Out, rng *hx.Rng) {
 			o.Put(runID("header", cx.Mutate(rng, h, 1), "mut"))
 		}
 		o.Put(runID("headerv", h, "nilagg"))
+		o.Put(runID("header-sign-nil", h, "nilagg"))
+		o.Put(runID("tx-reinit", d, "gen"))
+		o.Put(runID("tx-json", d, "forged-id"))
+		o.Put(runID("header-json", h, "forged-id"))
 		// a block around the header
 		w := codec.NewWriter()
 		w.WriteBytes(1, h)
 		w.WriteBytesArray(2, [][]byte{d})
 		o.Put(runID("block", w.Result(), "gen"))
+		o.Put(runID("block-json", w.Result(), "forged-id"))
 	}
 }
 
@@ -249,4 +336,22 @@ func replayID(o *hx.Out, line []byte) {
 	}
 	d, _ := hex.DecodeString(r.D)
 	o.Put(runID(r.Kind, d, r.Gen))
+}
+
+// forgeIDs replaces every "id" member of a decoded JSON document.
+func forgeIDs(v interface{}, forged string) {
+	switch t := v.(type) {
+	case map[string]interface{}:
+		for k, x := range t {
+			if k == "id" {
+				t[k] = forged
+			} else {
+				forgeIDs(x, forged)
+			}
+		}
+	case []interface{}:
+		for _, x := range t {
+			forgeIDs(x, forged)
+		}
+	}
 }
